@@ -374,6 +374,13 @@ func (l Loader) form(opcode string, f opcodesxml.Form) inst.Form {
 		})
 	}
 
+	// CMPXCHG compares the accumulator with the destination and loads the
+	// destination into it when they differ. The Opcodes database has no
+	// implicit operand for the register and memory forms.
+	if acc, ok := cmpxchgaccumulator[opcode]; ok && len(implicits) == 0 {
+		implicits = append(implicits, inst.ImplicitOperand{Register: acc, Action: inst.RW})
+	}
+
 	// Extract ISA flags.
 	var isas []string
 	for _, isa := range f.ISA {
@@ -389,6 +396,15 @@ func (l Loader) form(opcode string, f opcodesxml.Form) inst.Form {
 		EncodingType:     enctype(f),
 		CancellingInputs: cancelling,
 	}
+}
+
+// cmpxchgaccumulator maps CMPXCHG opcodes to the accumulator register they
+// implicitly read and write.
+var cmpxchgaccumulator = map[string]string{
+	"CMPXCHGB": "al",
+	"CMPXCHGW": "ax",
+	"CMPXCHGL": "eax",
+	"CMPXCHGQ": "rax",
 }
 
 // operands maps Opcodes XML operands to avo format. Returned in Intel order.
